@@ -112,7 +112,7 @@ struct Ref
             if (batch == 0) linear_hash(&tree[4 * r], row, rowlen);
             else
             {
-                size_t nb = cols > 0 ? (cols + batch - 1) / batch : 1;
+                size_t nb = cols > 0 ? (cols - 1) / batch + 1 : 1; // ceil(cols / batch) without forming cols + batch (batch may be close to 2^64)
                 std::vector<u64> cat(4 * nb);
                 for (size_t j = 0; j < nb; j++)
                 {
